@@ -56,9 +56,9 @@ Fixpoint ci_get {V} (k : str) (l : list (str * V)) : option V :=
   end.
 Definition ci_mem {V} (k : str) (l : list (str * V)) : bool :=
   match ci_get k l with Some _ => true | None => false end.
-(* __init__(pairs or mapping) (utils.py:261-264): OrderedDict(initial) first, then the two dicts *)
+(* __init__(pairs or mapping) (utils.py, after fix ff4cc51): self.update(initial) -- the pairs are inserted in order *)
 Definition ci_of_pairs {V} (l : list (str * V)) : list (str * V) :=
-  fold_left (fun acc kv => ci_set (fst kv) (snd kv) acc) (od_of_pairs l) [].
+  fold_left (fun acc kv => ci_set (fst kv) (snd kv) acc) l [].
 (* items_lower / lower (utils.py:172-176) *)
 Definition ci_lower {V} (l : list (str * V)) : list (str * V) :=
   ci_of_pairs (map (fun kv => (lower (fst kv), snd kv)) l).
@@ -390,14 +390,14 @@ Fixpoint xml_person_read (fuel : nat) (role : str) (x : xml) (ps : list (str * l
 Fixpoint xml_size (x : xml) : nat :=
   match x with XEl _ _ _ cs => S (fold_left (fun a c => a + xml_size c)%nat cs 0%nat) end.
 
-(* input/bibtexml.py:70-83 process_entry: exact (case-sensitive) membership in Person.valid_roles *)
+(* input/bibtexml.py:70-83 process_entry (after fix afc7628: field_name.lower() in Person.valid_roles) *)
 Definition xml_entry_read (x : xml) : res wentry :=
   match x_id x, x_children x with
   | Some key, item :: _ =>
     do fp <- fold_left (fun acc field =>
                do a <- acc;
                let name := x_tag field in
-               if is_role_lower name then do ps <- xml_person_read (S (xml_size field)) name field (snd a); Ok (fst a, ps)
+               if is_role_lower (lower name) then do ps <- xml_person_read (S (xml_size field)) name field (snd a); Ok (fst a, ps)
                else Ok (ci_set name (match x_text field with Some t => t | None => [] end) (fst a), snd a))
              (x_children item) (Ok ([], []));
     Ok (mkWE key (x_tag item) (fst fp) (snd fp))
